@@ -180,7 +180,7 @@ CHECKS = {
 ALL = ['C%02d' % i for i in range(1, 21)]
 
 
-CROSS_DEFAULT = (' Cross-cutting dimensions explored in the same run (DESIGN.md Part II, rounds 4-7): every exact numeric / '
+CROSS_DEFAULT = (' Cross-cutting dimensions explored in the same run (DESIGN.md Part II, rounds 4-8): every exact numeric / '
                  'matrix / object form of the same input (ints, numpy integers of every width incl. unsigned, read-only / strided / '
                  'integer-typed arrays, objects rebuilt from text, with fields assigned, pickled, copied, boolean flags as numpy bools); '
                  'every spelling of a call against a pinned signature table (positional, keyword, partly keyword, documented defaults '
@@ -194,7 +194,10 @@ CROSS_DEFAULT = (' Cross-cutting dimensions explored in the same run (DESIGN.md 
                  'Round 7: allocation history (a garbage-filled numpy buffer of every small size is released before every 5th real '
                  'call), other code in the process building and editing its own ellipsoid / projection / transformation objects '
                  'from the shipped numbers between cases, and - C01-C05, C10, C14 - histories over 2600 (thorough 70000) '
-                 'never-seen ellipsoids / projections / positions with the reference calls repeated at every power of two.')
+                 'never-seen ellipsoids / projections / positions with the reference calls repeated at every power of two. '
+                 'Round 8: debug logging switched on by the application as one more process environment, angle objects with '
+                 'unreduced fields / restored from stored dictionaries without their constructor / built by keyword, and the rule '
+                 'that a result the evaluator cannot read as the documented value is a violation.')
 CROSS = {
     'C02': (' Also: batch-converter inputs of 250 / 2000 / 30000 (thorough 110000) rows (every row present, in order).'),
     'C03': (' Also: numeric text forms of the angles (repr, exponent notation, explicit sign, blanks) and the ellipsoid as a '
